@@ -77,6 +77,16 @@ def gen_case(seed):
         fates["adv_dgrams"] = 10**6
         fates["loss"] = 0.0
     script = gen_script(rng, fates["adv_seconds"], max_streams=4, budget_bytes=120000, allow_key_update=False, allow_stop=False)
+    r5 = random.Random("c13-twice/%s" % seed)
+    if pattern in ("rebind", "rebind-early") and r5.random() < 0.5:
+        # the client's address changes twice in quick succession: what answers the challenge sent to the second address
+        # arrives from a third one, which nobody ever challenged; the server has plenty to send (download)
+        fates["rebind_again_after"] = fates["rebind_after"] + r5.choice([1, 1, 2, 3])
+        fates["loss"] = min(fates.get("loss", 0.0), 0.05)
+        script.append({"t": 0.3, "side": "server", "op": "write", "sid": 3, "n": r5.choice([30000, 100000]), "fin": True})
+        script.append({"t": 0.3, "side": "client", "op": "write", "sid": 0, "n": r5.choice([2000, 20000]), "fin": False})
+        script.sort(key=lambda o: o["t"])
+        pattern += "+twice"
     if rng.random() < 0.4:
         # data written before the handshake completes (fills the congestion window as soon as keys exist)
         script.append({"t": 0.0, "side": "client", "op": "write", "sid": 40, "n": rng.choice([5000, 40000]), "fin": True})
